@@ -5,7 +5,7 @@ import ast
 import re
 
 from ..astutil import attr_path, call_name, walk, src, ancestors
-from ..consteval import UNKNOWN, ClassRef
+from ..consteval import UNKNOWN, ClassRef, Instance
 from ..astutil import clone as _clone
 from ..framework import rule
 from ..guards import branch_outcome
@@ -15,7 +15,7 @@ from .common import CD, SLC, ckey
 P = "C18"
 PCCC = "pycomm3.cip.pccc"
 EXPLANATION = (
-    "Static rules D18.1-D18.9 (DESIGN.md section 5, C18): integer-typed address arithmetic of the binary-file bit form in linear "
+    "Static rules D18.1-D18.12 (DESIGN.md section 5, C18): integer-typed address arithmetic of the binary-file bit form in linear "
     "normal form (element = n // 16, bit = n % 16; true division is a distinct float atom); regex AST facts (re._parser) - every "
     "address pattern is applied so that the whole string must match, digit widths admit the checked ranges; every returned "
     "address record is dominated by the documented range tests of the fields it carries; file-type letters accepted by the "
@@ -886,3 +886,139 @@ def d18_10(ctx):
         n_checked += 1
         ctx.check(not diffs, key, n.ast, f"{folded} field/test evaluations agree between upper- and lower-case spellings",
                   f"the record depends on the letter case of the address although {rx} is case-insensitive: {sorted(set(diffs))[:3]} - the lower-case spelling addresses a different file / element", pattern=rx)
+
+
+@rule(P, "D18.11", "T-WITNESS", floor=30)
+def d18_11(ctx):
+    """parse_tag folded on one witness address per grammar form and spelling (sa/miniinterp.py; the constant address patterns
+    are applied by Python's own regex engine): the record must name the file type, file number, element, position,
+    sub-element/bit, address-field count, element count and address text that an independent reading of the address gives,
+    and addresses outside the grammar or the documented ranges must give None."""
+    from ..miniinterp import run_function
+
+    pt = ctx.model.func(f"{SLC}:parse_tag")
+    p = pt.node.args.args[0].arg
+    ct = ctx.spec("pccc")["timer_counter_words"]
+    ct_bits = ctx.folder.module_value(PCCC, "PCCC_CT")
+
+    def rec(ft, fn_, el, sub=None, pos=None, count=1, tag=None, af=None):
+        return {"file_type": ft, "file_number": fn_, "element_number": el, "sub_element": sub, "pos_number": pos, "element_count": count, "tag": tag, "address_field": af if af is not None else (3 if sub is not None else 2)}
+
+    W = {
+        "N7:0": rec("N", 7, 0, tag="N7:0"), "n7:12": rec("N", 7, 12, tag="n7:12"), "N255:255": rec("N", 255, 255, tag="N255:255"), "F8:3{4}": rec("F", 8, 3, count=4, tag="F8:3"),
+        "L9:1": rec("L", 9, 1, tag="L9:1"), "B3:1/5": rec("B", 3, 1, sub=5, tag="B3:1/5"), "n7:2/15": rec("N", 7, 2, sub=15, tag="n7:2/15"), "N7:0/0": rec("N", 7, 0, sub=0, tag="N7:0/0"),
+        "B3:4{2}": rec("B", 3, 4, count=2, tag="B3:4"),
+        "T4:0.ACC": rec("T", 4, 0, sub=ct["ACC"], tag="T4:0.ACC"), "c5:1.pre": rec("C", 5, 1, sub=ct["PRE"], tag="c5:1.pre"),
+        "T4:2.DN": rec("T", 4, 2, sub=ct_bits.get("DN") if isinstance(ct_bits, dict) else None, tag="T4:2.DN"),
+        "I:1": rec("I", 1, 1, pos=0, tag="I:1", af=2), "O:0.2": rec("O", 0, 0, pos=2, tag="O:0.2", af=2), "I:1.2/5": rec("I", 1, 1, sub=5, pos=2, tag="I:1.2/5"),
+        "o:3/0": rec("O", 0, 3, sub=0, pos=0, tag="o:3/0"), "i:2{3}": rec("I", 1, 2, pos=0, count=3, tag="i:2", af=2),
+        "S:1": rec("S", 2, 1, tag="S:1"), "S:1/5": rec("S", 2, 1, sub=5, tag="S:1/5"), "s:2{2}": rec("S", 2, 2, count=2, tag="s:2"),
+        "B3/17": rec("B", 3, 1, sub=1, tag="B3/17"), "b3/0": rec("B", 3, 0, sub=0, tag="b3/0"), "B10/4095": rec("B", 10, 255, sub=15, tag="B10/4095"), "B3/16": rec("B", 3, 1, sub=0, tag="B3/16"),
+        "B3/32{2}": rec("B", 3, 2, sub=0, count=2, tag="B3/32"),
+        "N0:0": None, "N256:0": None, "N7:256": None, "N7:0/16": None, "B3/4096": None, "X7:0": None, "N7:1000": None, "": None, "N7": None, "S:256": None, "I:1/16": None, "T4:0.XYZ": None, "N7:0{": None,
+    }
+    numeric = ("file_number", "element_number", "element_count")
+    for w, want in W.items():
+        kind, res = run_function(ctx, pt.module, pt.node, {p: w})
+        key = ckey(pt, f"witness:{w or '<empty>'}")
+        if kind == "unknown":
+            ctx.undecided(key, pt.node, f"parse_tag is not foldable on `{w}`: {res}")
+            continue
+        if kind == "raise":
+            ctx.violation(key, pt.node, f"parse_tag(`{w}`) raises {res} instead of returning {'an address record' if want else 'None'}")
+            continue
+        if want is None:
+            ctx.check(res is None, key, pt.node, f"`{w}` is outside the grammar / ranges: None", f"parse_tag(`{w}`) accepts an address outside the documented grammar or ranges: {res!r}")
+            continue
+        if not isinstance(res, dict):
+            ctx.violation(key, pt.node, f"parse_tag(`{w}`) returns {res!r} for a valid address")
+            continue
+        diffs = []
+        for k, v in want.items():
+            got = res.get(k)
+            if k in numeric or (k in ("sub_element", "pos_number") and v is not None):
+                try:
+                    got_n = int(got) if got is not None else (0 if k == "pos_number" else None)
+                except (TypeError, ValueError):
+                    got_n = ("?", got)
+                if got_n != v:
+                    diffs.append(f"{k}={got!r} (expected {v})")
+            elif k == "sub_element":
+                if res.get("address_field") == 3 and got is not None:
+                    diffs.append(f"sub_element={got!r} for an address without bit / sub-element")
+            elif k == "pos_number":
+                if got not in (None, 0, "0"):
+                    diffs.append(f"pos_number={got!r} (expected none)")
+            elif got != v:
+                diffs.append(f"{k}={got!r} (expected {v!r})")
+        ctx.check(not diffs, key, pt.node, f"`{w}` -> {want['file_type']}{want['file_number']}:{want['element_number']}" + (f"/{want['sub_element']}" if want["sub_element"] is not None else "") + f" x{want['element_count']}",
+                  f"parse_tag(`{w}`) yields {diffs}: the request addresses another file / element / bit or count", witness=w)
+
+
+def _slc_records():
+    def rec(ft, fn_, el, sub=None, pos=None, count=1, tag=None, af=None):
+        r = {"file_type": ft, "file_number": str(fn_), "element_number": str(el), "address_field": af if af is not None else (3 if sub is not None else 2), "element_count": count, "tag": tag or f"{ft}{fn_}:{el}"}
+        if sub is not None:
+            r["sub_element"] = sub
+        if pos is not None:
+            r["pos_number"] = str(pos)
+        return r
+
+    return rec
+
+
+@rule(P, "D18.12", "T-WITNESS", floor=20)
+def d18_12(ctx):
+    """Reply decoding and masked-write payloads folded on witness records x data (sa/miniinterp.py): words and {count} lists,
+    every bit position incl. bit 0 and bit 15, timer/counter PRE / ACC words and status bits, floats and longs; the
+    mask + data of a write sets exactly the addressed bit or the whole word(s)."""
+    import struct as _st
+
+    from ..miniinterp import run_function
+
+    rec = _slc_records()
+    pr = ctx.model.func(f"{SLC}:_parse_read_reply")
+    wv = ctx.model.func(f"{SLC}:writeable_value")
+    ct = ctx.spec("pccc")["timer_counter_words"]
+    w16 = lambda *xs: b"".join(_st.pack("<h", x) for x in xs)  # noqa: E731
+    reads = [
+        ("N7:0 word", rec("N", 7, 0), w16(1234), 1234), ("N7:0 negative", rec("N", 7, 0), w16(-2), -2), ("N7:0{3}", rec("N", 7, 0, count=3), w16(1, 2, 3), [1, 2, 3]),
+        ("B3:1/5 set", rec("B", 3, 1, sub="5"), w16(0x20), True), ("B3:1/5 clear", rec("B", 3, 1, sub="5"), w16(~0x20), False),
+        ("B3/16 bit0 set", rec("B", 3, 1, sub=0), w16(0x4001), True), ("B3/16 bit0 clear", rec("B", 3, 1, sub=0), w16(0x4000), False),
+        ("N7:0/15", rec("N", 7, 0, sub="15"), w16(-32768), True), ("I:1.0/3", rec("I", 1, 1, sub="3", pos=0), w16(8), True),
+        ("T4:0.PRE", rec("T", 4, 0, sub=ct["PRE"]), w16(0x2000, 100, 7), 100), ("T4:0.ACC", rec("T", 4, 0, sub=ct["ACC"]), w16(0x2000, 100, 7), 7),
+        ("T4:0.DN set", rec("T", 4, 0, sub=13), w16(0x2000, 100, 7), True), ("C5:1.CU clear", rec("C", 5, 1, sub=15), w16(0x2000, 100, 7), False),
+        ("F8:0", rec("F", 8, 0), _st.pack("<f", 1.5), 1.5), ("L9:0", rec("L", 9, 0), _st.pack("<i", 70000), 70000), ("F8:0{2}", rec("F", 8, 0, count=2), _st.pack("<ff", 0.5, -2.0), [0.5, -2.0]),
+    ]
+    a_tag, a_data = [a.arg for a in pr.node.args.args][:2]
+    for label, record, data, want in reads:
+        kind, res = run_function(ctx, pr.module, pr.node, {a_tag: record, a_data: data})
+        key = ckey(pr, f"witness:{label}")
+        if kind == "unknown":
+            ctx.undecided(key, pr.node, f"_parse_read_reply not foldable on {label}: {res}")
+            continue
+        got = res.args[1] if isinstance(res, Instance) and len(res.args) >= 2 else ("raises " + str(res) if kind == "raise" else res)
+        ok = kind == "return" and got == want and type(got) is type(want)
+        ctx.check(ok, key, pr.node, f"{label} -> {want!r}", f"reply decoding of {label} yields {got!r}, the data table holds {want!r}", witness=label)
+    writes = [
+        ("N7:0 = 5", rec("N", 7, 0), 5, b"\xff\xff" + w16(5)), ("N7:0 = -1", rec("N", 7, 0), -1, b"\xff\xff" + w16(-1)),
+        ("N7:0/5 = True", rec("N", 7, 0, sub="5"), True, w16(0x20) + w16(0x20)), ("N7:0/5 = False", rec("N", 7, 0, sub="5"), False, w16(0x20) + w16(0)),
+        ("B3/16 = True", rec("B", 3, 1, sub=0), True, w16(1) + w16(1)), ("N7:0/15 = True", rec("N", 7, 0, sub="15"), True, b"\x00\x80\x00\x80"),
+        ("T4:0.PRE = 100", rec("T", 4, 0, sub=ct["PRE"]), 100, b"\xff\xff" + w16(100)), ("T4:0.ACC = 7", rec("T", 4, 0, sub=ct["ACC"]), 7, b"\xff\xff" + w16(7)),
+        ("N7:0{2} = [1, 2]", rec("N", 7, 0, count=2), [1, 2], b"\xff\xff" + w16(1, 2)), ("N7:0{2} = [1, 2, 3]", rec("N", 7, 0, count=2), [1, 2, 3], b"\xff\xff" + w16(1, 2)),
+        ("N7:0{3} = [1, 2]", rec("N", 7, 0, count=3), [1, 2], "RequestError"), ("F8:0 = 1.5", rec("F", 8, 0), 1.5, b"\xff\xff" + _st.pack("<f", 1.5)),
+        ("L9:0 = 70000", rec("L", 9, 0), 70000, b"\xff\xff" + _st.pack("<i", 70000)), ("raw bytes", rec("N", 7, 0), b"\x01\x02\x03\x04", b"\x01\x02\x03\x04"),
+        ("N7:0 = 'x'", rec("N", 7, 0), "x", "RequestError"),
+    ]
+    b_tag, b_val = [a.arg for a in wv.node.args.args][:2]
+    for label, record, value, want in writes:
+        kind, res = run_function(ctx, wv.module, wv.node, {b_tag: record, b_val: value})
+        key = ckey(wv, f"witness:{label}")
+        if kind == "unknown":
+            ctx.undecided(key, wv.node, f"writeable_value not foldable on {label}: {res}")
+            continue
+        got = res if kind == "return" else str(res)
+        if isinstance(got, (bytes, bytearray)):
+            got = bytes(got)
+        ctx.check(got == want, key, wv.node, f"{label} -> {want.hex() if isinstance(want, bytes) else want}",
+                  f"masked-write payload for {label} is {got.hex() if isinstance(got, bytes) else got!r}, expected {want.hex() if isinstance(want, bytes) else want} (mask + data): another bit / word is written or a valid value is refused", witness=label)
